@@ -388,7 +388,8 @@ def handle (line : String) : String :=
           let s4 := if ecls != "nil" && rres != octet then "SPEC C02:error-result-not-octet-stream" else ""
           let s5 := if ecls != "nil" && ecls != "sentinel" then "SPEC C05:unexpected-error-class" else ""
           let s6 := if ecls == "sentinel" && !mustFail && ea.isNone then "SPEC C05:spurious-error" else ""
-          let all := [d1, s1, s2, s3, s4, s5, s6].filter (· != "")
+          let s7 := if rres == "NILMIME" then "SPEC C01:nil-MIME-returned" else ""
+          let all := [d1, s1, s2, s3, s4, s5, s6, s7].filter (· != "")
           if all.isEmpty then "OK" else String.intercalate " ; " all
         | _ => "SPEC C01:no-result(" ++ goRes ++ ")"
       | _, _ => "BAD args"
@@ -402,7 +403,8 @@ def handle (line : String) : String :=
       let octet := bhex mimeOctet ++ "|-/" ++ bhex mimeOctet
       match goRes.splitOn " " with
       | [ecls, rres] =>
-        if ecls != "error" then "SPEC C05:open-error-not-surfaced"
+        if rres == "NILMIME" then "SPEC C01:nil-MIME-returned ; SPEC C02:error-result-not-octet-stream"
+        else if ecls != "error" then "SPEC C05:open-error-not-surfaced"
         else if rres != octet then "SPEC C02:error-result-not-octet-stream" else "OK"
       | _ => "SPEC C01:no-result(" ++ goRes ++ ")"
     | ["mono", _hx, _l1, _l2] =>
